@@ -174,6 +174,7 @@ pub fn run(ctx: &Ctx) -> i32 {
     Seq(usize, usize),
     Small(u8),
     Bulk(u8, u64),
+    Sweep(u64, u64),
   }
   let mut jobs: Vec<Job> = (0..njobs_hist).map(Job::Hist).collect();
   let run_depths: Vec<u8> = if quick { vec![3] } else { vec![3, 4, 6] };
@@ -188,6 +189,17 @@ pub fn run(ctx: &Ctx) -> i32 {
   // many buffered pushes: thousands of cells with clusters, long aligned runs and duplicates
   for &(d, salt) in if quick { &[(6u8, 1u64), (9, 2)][..] } else { &[(6u8, 1u64), (9, 2), (12, 3), (18, 4), (29, 5)][..] } {
     jobs.push(Job::Bulk(d, salt));
+  }
+  // size sweep: a whole tile (packed into one coarse cell at the first drain), then n of its cells
+  // pushed again + cells after the tile, for EVERY n up to the bound (a drain = `or` of the coarse
+  // cell with n covered entries)
+  let sweep_max: u64 = if quick { 340 } else { 4200 };
+  {
+    let mut lo = 1u64;
+    while lo <= sweep_max {
+      jobs.push(Job::Sweep(lo, (lo + 19).min(sweep_max)));
+      lo += 20;
+    }
   }
   let seq_universe = universe(&UniverseSpec { name: "seq", dmax: 2, chain: Chain::First, partial: true, unpacked: true, other_bases: &[11], all_depth_max: true });
   let seq_universe3 = if quick { vec![] } else { universe(&UniverseSpec { name: "seq3", dmax: 3, chain: Chain::Last, partial: false, unpacked: true, other_bases: &[], all_depth_max: true }) };
@@ -386,6 +398,31 @@ pub fn run(ctx: &Ctx) -> i32 {
           }
         }
       }
+      Job::Sweep(lo, hi) => {
+        let (d, tile): (u8, u64) = if sweep_max <= 340 { (6, 1024) } else { (8, 16384) };
+        let t0 = 7 * tile; // a generic aligned tile
+        assert!(t0 + 3 * tile + 1 < n_hash(d), "oracle: sweep tile out of range");
+        for n in *lo..=*hi {
+          let mut pushes: Vec<u64> = (t0..t0 + tile).collect();
+          pushes.extend((0..n).map(|k| t0 + 3 * k + 1));
+          pushes.push(t0 + tile + 5);
+          pushes.push(t0 + 3 * tile + 1);
+          for full in [true, false] {
+            part.stratum("repush-size-sweep", 1, 1);
+            if let Some(v) = check_history(d, full, tile as usize, &pushes, &mut part) {
+              part.viol(v);
+            }
+          }
+          // the same with the re-pushed cells first (the tile arrives in the second buffer)
+          let mut p2: Vec<u64> = (0..n).map(|k| t0 + 3 * k + 1).collect();
+          p2.push(t0 + tile + 5);
+          p2.extend(t0..t0 + tile);
+          part.stratum("repush-size-sweep", 1, 1);
+          if let Some(v) = check_history(d, true, (n + 1) as usize, &p2, &mut part) {
+            part.viol(v);
+          }
+        }
+      }
       Job::Seq(lo, hi) => {
         for bm in &all_seq[*lo..*hi] {
           part.stratum("pack-sequences", 1, 1);
@@ -411,6 +448,7 @@ pub fn run(ctx: &Ctx) -> i32 {
     json!({"push_histories": format!("all sequences of length <= {} over {} cells of depth {} x capacities {:?} x both flags", max_len, na, hist_depth, caps),
       "runs": format!("consecutive runs of length 1..{} from 13 aligned/unaligned starts at depths {:?}, 6 push orders (asc, desc, interleaved, duplicated, duplicated+repeat, gap), 12 capacities, both flags", if quick { 70 } else { 300 }, run_depths),
       "bulk": "per depth (6, 9 quick; + 12, 18, 29 thorough) a deterministic multiset of ~9000 pushes (60 clusters, a whole aligned coarse cell of 4096 cells, an unaligned run of 1500, 400 repeats) in 3 orders x 5 capacities x 2 flags",
+      "repush_size_sweep": format!("a whole tile then n of its cells again + 2 cells after it, every n in 1..={}, capacity = tile size (drain = or of the packed tile with n covered entries), both flags and the reverse arrival order", sweep_max),
       "small": "all subsets of the depth-0 cells, of the depth-1... (12 cells) and of 11 cells of depth 29, both orders; all rotations of the 48 depth-1 cells",
       "sequences": format!("{} valid entry sequences (universe depth 2 chain-first with partial flags and unpacked shapes{}) x pack and every lower depth", all_seq.len(), if quick { "" } else { ", depth 3 chain-last" })}),
     "every push history / run / subset / entry sequence listed in bounds",
